@@ -106,6 +106,22 @@ def nodes(t, prefix=()):
       yield from nodes(v, prefix + (('i', i),))
 
 
+def share(t, i, j):
+  """Makes the same container object appear at two paths of t (in place; t is harness-built): the i-th non-empty inner
+  dict / list (DFS order) also replaces the j-th one, unless one contains the other. Returns True if something was shared."""
+  inner = [(p, n) for p, n in nodes(t) if p and isinstance(n, (dict, list)) and len(n)]
+  if len(inner) < 2:
+    return False
+  (pa, a), (pb, _) = inner[i % len(inner)], inner[j % len(inner)]
+  if pa == pb or pa[:len(pb)] == pb or pb[:len(pa)] == pa:
+    return False
+  parent = ref_get(t, pb[:-1])
+  if isinstance(parent, tuple):
+    return False
+  parent[pb[-1][1]] = a
+  return True
+
+
 def deep_equal(a, b):
   if isinstance(a, np.ndarray) or isinstance(b, np.ndarray):
     return (isinstance(a, np.ndarray) and isinstance(b, np.ndarray) and a.dtype == b.dtype
